@@ -216,9 +216,24 @@ def register_children(cfg, nodes, api, log, prefix, sub):
         cfg.add_sub_command_configs(gen) if sub else cfg.add_command_configs(gen)
 
 
+_ALIAS_ROTATION = [0]
+
+
 def configure_command(cfg, node, api, log, prefix=""):
     Argument, Option = api["Argument"], api["Option"]
-    cfg.set_aliases(list(node["aliases"]))
+    # four routes to the same aliases: set, add one by one, add a batch, replace an earlier (different) list
+    _ALIAS_ROTATION[0] += 1
+    route = _ALIAS_ROTATION[0] % 4
+    if route == 0:
+        cfg.set_aliases(list(node["aliases"]))
+    elif route == 1:
+        for a in node["aliases"]:
+            cfg.add_alias(a)
+    elif route == 2:
+        cfg.add_aliases(list(node["aliases"]))
+    else:
+        cfg.set_aliases(["old" + node["name"]])  # replaced below: 'old<name>' is NOT an alias of the command
+        cfg.set_aliases(list(node["aliases"]))
     if node["desc"] is not None:
         cfg.set_description(node["desc"])
     if node.get("help"):
